@@ -337,9 +337,11 @@ class SwitchRouter(BaseRouter):
     def get_exit_edge_pairs(self, row_id):
         pairs = []
         covered_category_uuids = set()
-        for category in self.get_categories():
-            for case in self.cases:
-                # Find the case matching the category.
+        # One edge per case, in the order in which the cases are tested;
+        # several cases may share a category.
+        for case in self.cases:
+            for category in self.get_categories():
+                # Find the category of the case.
                 if case.category_uuid == category.uuid:
                     covered_category_uuids.add(category.uuid)
                     # has_group cases carry [group uuid, group name]: sheets refer to
@@ -373,7 +375,10 @@ class SwitchRouter(BaseRouter):
             pairs.append(
                 (
                     self.no_response_category.exit,
-                    Edge(from_=row_id, condition=Condition(value=category.name)),
+                    Edge(
+                        from_=row_id,
+                        condition=Condition(value=self.no_response_category.name),
+                    ),
                 )
             )
         return pairs
